@@ -143,6 +143,19 @@ Proof.
   revert s. induction n as [|n IH]; intros s; cbn [stake]; [reflexivity|]. destruct s as [|c r]; [reflexivity|].
   intros H. apply cln_String_inv in H. destruct H as [Hc Hr]. apply cln_String; [exact Hc|apply IH; exact Hr].
 Qed.
+Lemma cln_to_valid_utf8_aux k s : cln s -> cln (to_valid_utf8_aux k s).
+Proof.
+  revert k. induction s as [|c r IH]; intros k H; cbn [to_valid_utf8_aux]; [exact H|].
+  apply cln_String_inv in H. destruct H as [Hc Hr]. destruct k as [|k].
+  - destruct (lead_info (byte_of c)) as [[[n lo] hi]|]; [destruct (conts_ok n lo hi r)|];
+      first [apply cln_String; [exact Hc|apply IH; exact Hr] | apply IH; exact Hr].
+  - apply cln_String; [exact Hc|apply IH; exact Hr].
+Qed.
+Lemma cln_cap_user u : cln u -> cln (cap_user u).
+Proof.
+  intros H. unfold cap_user. destruct (Nat.ltb max_user_len (slen u)); [|exact H].
+  unfold to_valid_utf8. apply cln_to_valid_utf8_aux, cln_stake, H.
+Qed.
 Lemma cln_sdrop n s : cln s -> cln (sdrop n s).
 Proof.
   revert s. induction n as [|n IH]; intros s; cbn [sdrop]; [trivial|]. destruct s as [|c r]; [trivial|].
